@@ -7,6 +7,9 @@ from vf.ref.ecref import SECP256K1 as S
 from vf.runner import Acc, filler
 
 PROPERTY = "C14"
+CONCUR_FILES = ('bits/ecmath.py', 'bits/utils.py', 'bits/keys.py')
+# (thread a, thread b), warm-up: indices into seq_ops() - the ordinary single-case checks run concurrently (vf/concur.py)
+CONCUR_SCEN = [((0, 6), ()), ((2, 2), (0,)), ((1, 7), (5,))]
 LEVEL = "exploration"
 ENGINES = ["E2-small-curve", "E1-scope-enumerator"]
 RULE = ("SEC1 on small curves: every point -> both encodings -> decode -> re-encode; EVERY candidate buffer of length "
@@ -19,6 +22,7 @@ RULE = ("SEC1 on small curves: every point -> both encodings -> decode -> re-enc
 ASSUMPTIONS = ["E2 small-curve retargeting (see C03)", "OpenSSL via `cryptography` is the external PEM reader/writer",
                "vf/ref/base58_ref.py for WIF validity"]
 OBLIGATIONS = {
+    "concurrent_calls": "interleavings of two concurrent calls (single-case checks in two threads, cold and after warm-up calls)",
     "history_sequences": "operation sequences (non-initial process states) explored",
     "sec1_wrong_len_for_prefix": "right prefix with the other length offered", "sec1_x_ge_p": "x >= p offered",
     "sec1_off_curve": "off-curve x / (x,y) offered", "sec1_hybrid": "hybrid prefix 06/07 offered",
@@ -194,6 +198,9 @@ CASES = {"sec1": chk_sec1, "wif_rt": chk_wif_rt, "wif_str": chk_wif_str, "pem": 
 
 
 def run_case(kind, case):
+    if kind == "concurcase":
+        from vf import concur
+        return concur.replay_cases(run_case, PROPERTY, case, CONCUR_FILES)
     if kind == "seq":
         from vf import seqexplore
         return seqexplore.replay(run_case, case)
@@ -230,10 +237,17 @@ def jobs(tier, seed):
         js.append({"name": f"pem/{sh}", "part": "pem", "shard": [sh, 8], "weight": 4})
     from vf.runner import seq_jobs
     js += seq_jobs(2, curve=list(T[0]), weight=3)
+    from vf.runner import concur_jobs
+    js += concur_jobs(len(CONCUR_SCEN), curve=list(T[0]))
     return js
 
 
 def run_job(job):
+    if job["part"] == "concurcase":
+        from vf.runner import run_concur_job
+        ops = seq_ops(dict(job, shard=[0, 1]))
+        scens = [{"threads": [ops[i] for i in th], "warm": [ops[i] for i in wm]} for th, wm in CONCUR_SCEN]
+        return run_concur_job(job, scens, run_case, PROPERTY, CONCUR_FILES)
     if job["part"] == "seq":
         from vf.runner import run_seq_job
         return run_seq_job(job, seq_ops(job), run_case)
